@@ -1915,3 +1915,113 @@ def call_without_arguments(ctx):
             problem is None,
             (problem or "") + ": `f()` is rejected with 'No method ... for argument types []' where calling the method directly would use its defaults",
         )
+
+
+# ---------------------------------------------------------------------------------------- combination against combination
+def combination_against_combination(ctx):
+    """A union compared with another union (and an intersection with another intersection): the order hooks are
+    interpreted on combinations of pairwise unrelated classes, with the order function dispatching as the package's
+    does (equal -> SAME; the first operand's hook; else the second's, mirrored).  The two directions give mirror-image
+    answers, and they follow inclusion: a union whose members are all members of the other is LESS (an intersection:
+    MORE); neither included in the other -> NONE."""
+    import itertools
+
+    repo = ctx.repo
+    en = A.order_enum(repo)
+    atoms = ("int", "str", "float")
+    n = 0
+    for c in repo.all_classes():
+        if c.name not in ("Union", "Intersection") or "__type_order__" not in c.methods:
+            continue
+        hook = c.methods["__type_order__"]
+        ctx.touch(hook)
+        raw = repo.raw_methods(c)
+
+        class Comb:
+            """a type made by the forwarding metaclass from a handler object"""
+
+            def __init__(self, members):
+                self.members = tuple(members)
+                h = Instance(c.name, raw)
+                h.__dict__.update(types=self.members, __args__=self.members)
+                self._handler = h
+                self.__args__ = self.members
+
+            def __repr__(self):
+                return f"{c.name}[{', '.join(self.members)}]"
+
+            def __eq__(self, other):
+                return isinstance(other, Comb) and set(self.members) == set(other.members)
+
+            __hash__ = object.__hash__
+
+        made = {}
+
+        class Factory:
+            def __getitem__(self, item):
+                item = tuple(item) if isinstance(item, (tuple, list)) else (item,)
+                return made.setdefault(frozenset(item), Comb(item))
+
+        combos = [Factory()[m] for k in (2, 3) for m in itertools.combinations(atoms, k)]
+        depth = []
+
+        def TO(a, b):
+            if len(depth) > 12:
+                raise AnalysisError(f"{hook.key}: the order hooks call each other without end")
+            if a == b:
+                return _ORD["SAME"]
+            depth.append(1)
+            try:
+                if isinstance(a, Comb):
+                    r = hi.call_function(raw["__type_order__"], [a._handler, b], {}, {})
+                    if r is not NotImplemented:
+                        return r
+                if isinstance(b, Comb):
+                    r = hi.call_function(raw["__type_order__"], [b._handler, a], {}, {})
+                    if r is not NotImplemented:
+                        return r.opposite()
+                return _ORD["NONE"]  # distinct unrelated classes
+            finally:
+                depth.pop()
+
+        order_ns = Record(merge=HostFn(lambda orders: _ref_merge(list(orders))), **_ORD)
+        funcs = {nm: g.node for nm, g in hook.module.funcs.items() if g.parent is None and g.cls is None and not g.node.decorator_list}
+        genv = {en.name: order_ns, "NotImplemented": NotImplemented, "typeorder": HostFn(TO), c.name: Factory(), "subclasscheck": HostFn(lambda x, y: x == y or (isinstance(y, Comb) and x in y.members))}
+        hi = HostInterp(raw, Record(), {}, globals_env=genv, classes={}, functions=funcs)
+        hi.host_types = hi.host_types + (_Ord, Comb, Factory)
+        bad_mirror = bad_incl = None
+        cases = 0
+        for u, v in itertools.permutations(combos, 2):
+            try:
+                a, b = TO(u, v), TO(v, u)
+            except Raised as r:
+                raise AnalysisError(f"{hook.key}: raises {r.what} on two combinations")
+            except (TypeError, AttributeError) as e:
+                raise AnalysisError(f"{hook.key}: not interpretable on two combinations: {e}")
+            cases += 1
+            if getattr(a, "name", None) not in _ORD or getattr(b, "name", None) not in _ORD:
+                raise AnalysisError(f"{hook.key}: answers {a!r} / {b!r}")
+            if a.opposite() is not b and bad_mirror is None:
+                bad_mirror = (u, v, a, b)
+            su, sv = set(u.members), set(v.members)
+            incl = "LESS" if su < sv else "MORE" if sv < su else "NONE"
+            if c.name == "Intersection":
+                incl = {"LESS": "MORE", "MORE": "LESS"}.get(incl, incl)
+            if a.name != incl and bad_incl is None:
+                bad_incl = (u, v, a, incl)
+        n += 1
+        ctx.ob(
+            f"{hook.key}:against-its-own-kind:mirror",
+            hook.loc(),
+            f"two {c.name.lower()}s compare to mirror-image answers in the two directions ({cases} ordered pairs interpreted)",
+            bad_mirror is None,
+            (f"typeorder({bad_mirror[0]}, {bad_mirror[1]}) is {bad_mirror[2]} and typeorder({bad_mirror[1]}, {bad_mirror[0]}) is {bad_mirror[3]}: the answer depends on which of the two is asked, i.e. on the iteration order of a set of types - the hash seed decides which of two methods runs" if bad_mirror else ""),
+        )
+        ctx.ob(
+            f"{hook.key}:against-its-own-kind:inclusion",
+            hook.loc(),
+            f"a {c.name.lower()} whose members are all members of another one is {'LESS' if c.name == 'Union' else 'MORE'}; two that overlap or are disjoint are unordered ({cases} ordered pairs interpreted)",
+            bad_incl is None,
+            (f"typeorder({bad_incl[0]}, {bad_incl[1]}) is {bad_incl[2]}, inclusion says {bad_incl[3]}: a method on the wider {c.name.lower()} is preferred over (or silently tied with) the method on the narrower one" if bad_incl else ""),
+        )
+    ctx.require(n >= 2, "expected the order hooks of the union and the intersection")
